@@ -143,8 +143,45 @@ class Sh(ld.DiffRunner):
                     self.res["nontrivial"].add(case_hash(text))
 
 
+    def depth_histories(self):
+        """a function reached at different recursion depths in turn: the limit must depend on the current nesting only"""
+        r = self.rnd
+        src = ('function rec(n) return integer is begin if n <= 1 then return 1; end if; return 1 + rec(n - 1); end;\n'
+               'function g(n, m) return integer is begin if n <= 0 then return rec(m); end if; return g(n - 1, m); end;\n'
+               'function ret0(a) return integer is begin if a > 0 then return; end if; return 7; end;\n')
+        n = 60 if self.desc["tier"] == "quick" else 1200
+        for _ in range(n):
+            calls = []; exp = []
+            for i in range(r.randint(2, 5)):
+                k = r.random()
+                if k < 0.4:
+                    a = r.choice([1, 2, 50, 100, 200, 254, 255, 256]); calls.append("rec(%d)" % a); exp.append(a if a <= 255 else "LIMIT")
+                elif k < 0.8:
+                    nn = r.choice([0, 1, 50, 100, 200, 250]); m = r.choice([1, 3, 4, 5, 50, 100, 154, 155, 200])
+                    calls.append("g(%d, %d)" % (nn, m)); exp.append(m if nn + 1 + m <= 255 else "LIMIT")
+                else:
+                    a = r.choice([0, 1]); calls.append("ret0(%d)" % a); exp.append(7 if a == 0 else None)
+            text = src + "".join('begin x%d = %s; print "@@%d:" x%d; exception when others then print "@@%d:E"; end;\n' % (i, c, i, i, i) for i, c in enumerate(calls))
+            ops = ["new A 0", "parse A P %s" % hx(text), "run A P 400000", "dump A"]
+            rr = self.probe.case(ops)
+            self.res["evaluations"] += 1; bump(self.res, "depth_histories")
+            if rr.crashed:
+                bump(self.res, "worker_crashes")
+                add_violation(self.res, "C08|depth-history|crash:%s" % rr.sig, "%s crashed: %s" % (calls, rr.sig), {"ops": ops, "program": text, "report": rr.report[-3000:]}); continue
+            oc, intr, out, _ = ld.impl_outcome(rr.replies[2], self.E)
+            m = ld.markers(out)
+            want = []; stop = None
+            for i, e in enumerate(exp):
+                if e == "LIMIT":
+                    stop = i; break      # the recursion-limit error is not catchable: the program stops there
+                want.append("@@%d:%s" % (i, "null" if e is None else e))
+            if m != want or (stop is None and oc[0] != "ok") or (stop is not None and oc != ("error", "RECURSION_LIMIT")):
+                self.viol("depth-history", "calls %s: printed %r outcome %s, expected %r%s" % (calls, m, oc, want, " then the recursion-limit error" if stop is not None else ""), ops, text); continue
+            self.res["nontrivial"].add(case_hash(text))
+
+
 def plan(tier, seed):
-    sh = [{"kind": "ladder", "k": 0, "n": 1, "seed": seed, "tier": tier}]
+    sh = [{"kind": "ladder", "k": 0, "n": 1, "seed": seed, "tier": tier}, {"kind": "depth_histories", "k": 0, "n": 1, "seed": seed, "tier": tier}]
     for k in range(7): sh.append({"kind": "histories", "k": k, "n": 7, "seed": seed, "tier": tier, "route": "cpp" if k % 3 else "capi"})
     for k in range(6): sh.append({"kind": "twins", "k": k, "n": 6, "seed": seed, "tier": tier})
     return sh
